@@ -221,7 +221,7 @@ def tblBlob (name : String) : String :=
 def sanFlags (mp : MoveProps) : String :=
   flag mp.isCapture "c" ++ flag mp.isCheck "k" ++ flag mp.isMate "m" ++ ambCh mp.amb
 
-def runOp (K : Keys) (committedKeys : String) (sess : Option Session) (line : String) : Option Session × String :=
+def runOp (K : Keys) (committedKeys : String) (lite : Bool) (sess : Option Session) (line : String) : Option Session × String :=
   let toks := line.splitOn " "
   let op := toks.headD ""
   let arg (i : Nat) : String := toks.getD i ""
@@ -329,17 +329,21 @@ def runOp (K : Keys) (committedKeys : String) (sess : Option Session) (line : St
     | some b =>
       let g := Game.ofBoard b
       let s := Spec.init (absPos b)
+      if lite then (some ⟨g, s⟩, "skip ## ") else
       (some ⟨g, s⟩, s!"{gobs g} ## {specGobs s}")
   | "g.act" =>
     match sess, parseAction (arg 1) with
     | some ⟨g, s⟩, some a =>
+      if lite then
+        (match g.act K a with | .ok g2 => (some ⟨g2, s⟩, "skip ## ") | .error _ => (some ⟨g, s⟩, "skip ## "))
+      else
       let (g', r) := match g.act K a with
         | .ok g2 => (g2, "ok")
         | .error .illegalAction => (g, "illegal")
         | .error .gameFinished => (g, "finished")
         | .error _ => (g, "other")
       let (s', sr) := match Spec.step s (toSpecAction a) with
-        | .ok s2 => ({ s2 with start := s2.start }, "ok")
+        | .ok s2 => ({ s2 with later := s2.later.map normPos }, "ok")
         | .error .illegalAction => (s, "illegal")
         | .error .finished => (s, "finished")
       (some ⟨g', s'⟩, s!"r={r} {gobs g'} ## r={sr} {specGobs s'}")
@@ -397,7 +401,8 @@ end Drv
 
 def main (args : List String) : IO UInt32 := do
   match args with
-  | [keysPath, opsPath, outPath] =>
+  | keysPath :: opsPath :: outPath :: rest =>
+    let lite := rest.contains "lite"
     let keysLine := ((← IO.FS.readFile keysPath).trimAscii).toString
     let arr : Array BB := ((keysLine.splitOn ",").map Drv.parseBB).toArray
     let K := Keys.ofArray arr
@@ -409,7 +414,7 @@ def main (args : List String) : IO UInt32 := do
       let line ← hin.getLine
       if line.isEmpty then break
       let l := (line.trimAsciiEnd).toString
-      let (s', out) := Drv.runOp K committed sess l
+      let (s', out) := Drv.runOp K committed lite sess l
       sess := s'
       hout.putStrLn out
     hout.flush
